@@ -34,7 +34,7 @@ from .loadpipe import msgclass as import_msgclass
 
 LEVEL = "model_checking"
 
-ACTIONS = ["Process", "BindPath", "BindQuery", "BindHeader", "BindCookie", "BindBody", "Dispatch", "Send", "Judge"]
+ACTIONS = ["Plan", "Process", "BindPath", "BindQuery", "BindHeader", "BindCookie", "BindBody", "Dispatch", "Send", "Judge"]
 HOLDING = ["TypeOK", "MachineIsModel", "VerdictIsJudge", "ReferenceAccepted", "ExactlyOneOrRaise", "MethodOK"]
 FIXED_INV = HOLDING + ["RequestOK", "NeverDead"]
 LOCATED = ["query", "header", "cookie"]
@@ -755,8 +755,8 @@ def run(chk: Check) -> None:
         "shape {limit, page-size, pageSize, class, url, params, headers, body, id} x declared at path level / operation level; body {none, "
         "JSON model, JSON primitive, JSON array, form, multipart, octet, two content types}.  Deterministic stratified selection: A single "
         "parameters with (a+b+c)%3=0 (every pair of dimensions), B one parameter x every body kind, C pairs of (loc/req, shape) with sum%4=0, "
-        "D triples over three different loc/req kinds with an orthogonal-array third shape and sum%9=0, E a path-level parameter repeated at "
-        "operation level; thorough: A complete, B x4, C all pairs x2, D all x2, E x every type, F quadruples x4.  Every method is called with "
+        "D triples over three different loc/req kinds with an orthogonal-array third shape, names folding differently and sum%6=0, E a path-level "
+        "parameter repeated at operation level; thorough: A complete, B x6, C all pairs x3, D all x4, E x every type, F quadruples x8.  Every method is called with "
         "<= 8 subsets of its optional arguments (all subsets for <= 3 optionals, else none / all / singles); non-trivial = call that supplies "
         "at least one declared parameter or body, distinct by (operation, supplied set)"
     )
